@@ -159,10 +159,9 @@ class Prop:
     assumptions = ['scaled inputs have at most 6 decimals so that float(v)*k is exact enough: IEEE rounding inside the '
                    'converters is modelled in exact arithmetic (validated exhaustively on <= 18-bit fields)']
 
-    def run(self, ctx):
-        rng = ctx.rng('c02')
+    def make_cases(self, ctx, reps, salt='c02'):
+        rng = ctx.rng(salt)
         import attr
-        reps = 6 if ctx.tier == 'quick' else 80
         ops, meta = [], []
         for cname, cls in sorted(gen.concrete_classes().items()):
             t, disc = gen.TYPE_OF[cname]
@@ -195,19 +194,22 @@ class Prop:
                         ops.append('encode_dict %s %s %s' % (b'AIVDO'.hex(), b'B'.hex(), kw_to_wire(k2)))
                     else:
                         ops.append('encode_msg %s %s %s %s' % (cname, b'AIVDM'.hex(), b'B'.hex(), kw_to_wire(kw)))
-                    meta.append((cname, via, k2, exp))
-        outs = ctx.corr(ops, impl.step, 'encode')
+                    meta.append((cname, via, exp, {'class': cname, 'via': via, 'op': ops[-1], 'expected': exp}))
+        return ops, meta
+
+    def evaluate(self, ctx, ops, meta, corr=True):
+        """encode (op) -> decode -> compare with the expected values"""
+        outs = ctx.corr(ops, impl.step, 'encode') if corr else [impl.step(o) for o in ops]
         dops, dmeta = [], []
-        for (cname, via, kw, exp), o, op in zip(meta, outs, ops):
+        for (cname, via, exp, inp), o in zip(meta, outs):
             ctx.count('class:' + cname)
-            inp = {'class': cname, 'via': via, 'kwargs': kw_to_wire(kw)}
             if o.startswith('ERR'):
                 ctx.fail('an in-range message cannot be encoded', inp, 'sentences', o, {'kind': 'encode-raises', 'class': cname, 'exc': o[4:]})
                 continue
             dops.append('decode 0 ' + ' '.join(o.split(',')))
-            dmeta.append((cname, via, kw, exp, inp))
-        douts = ctx.corr(dops, impl.step, 'decode')
-        for (cname, via, kw, exp, inp), o in zip(dmeta, douts):
+            dmeta.append((cname, via, exp, inp))
+        douts = ctx.corr(dops, impl.step, 'decode') if corr else [impl.step(o) for o in dops]
+        for (cname, via, exp, inp), o in zip(dmeta, douts):
             if o.startswith('ERR'):
                 ctx.fail('the encoded message cannot be decoded', inp, 'a message', o, {'kind': 'decode-raises', 'class': cname})
                 continue
@@ -228,9 +230,21 @@ class Prop:
                 ctx.fail('a decoded field differs from the encoded value', dict(inp, field=bad[0][0]),
                          bad[0][1], bad[0][2], {'kind': 'field', 'class': cname, 'fields': sorted(k for k, _, _ in bad)[:3], 'how': how})
 
+    def run(self, ctx):
+        ops, meta = self.make_cases(ctx, 12 if ctx.tier == 'quick' else 150)
+        self.evaluate(ctx, ops, meta)
+
+    def search(self, ctx, broken):
+        # more assignments per class, implementation only (the oracle is the expected value computed
+        # from the standard's quantisation rules)
+        ops, meta = self.make_cases(ctx, 60, salt='c02-search')
+        self.evaluate(ctx, ops, meta, corr=False)
+
     def replay(self, ctx, payload):
-        print(payload['failure']['input'])
-        return True
+        inp = payload['failure']['input']
+        meta = [(inp['class'], inp['via'], inp['expected'], inp)]
+        self.evaluate(ctx, [inp['op']], meta, corr=False)
+        return not ctx.failures
 
 
 PROP = Prop()
